@@ -109,3 +109,18 @@ Theorem C13_boxed_nesting_map_lines : forall st a b c,
   is_none (fst (get_map st L false)) = is_none (fst (get_map st F false)).
 Proof. exact LawMaps.boxed_nesting_map_lines. Qed.
 Print Assumptions C13_boxed_nesting_map_lines.
+
+(* empty neighbours and a single child through map(), both column settings *)
+Theorem C13_empty_neighbours_map : forall st e a e' c,
+  empty_leaf e = true -> empty_leaf e' = true ->
+  LawMaps.good (SConcat [e; a; e']) -> LawMaps.good a ->
+  LawMaps.small_final_c st (SConcat [e; a; e']) c -> LawMaps.small_final_c st a c ->
+  source (SConcat [e; a; e']) = source a /\
+  attr_of_map (fst (get_map st (SConcat [e; a; e']) c)) (source a) c = attr_of_map (fst (get_map st a c)) (source a) c /\
+  is_none (fst (get_map st (SConcat [e; a; e']) c)) = is_none (fst (get_map st a c)).
+Proof. exact LawMaps.empty_neighbours_map. Qed.
+Print Assumptions C13_empty_neighbours_map.
+
+Theorem C13_single_child_map : forall st a c, get_map st (SConcat [a]) c = get_map st a c.
+Proof. exact LawMaps.single_child_map. Qed.
+Print Assumptions C13_single_child_map.
